@@ -16,7 +16,8 @@ PROP = 'C02'
 RULE = ('cells as in C01 (all 106 wavelets x 5 modes x hostile sizes x J); per cell the impulse batch '
         '(S*A=I for the whole cell) and dense / dynamic-range / structured inputs are sent through '
         'forward then inverse; distinct by (cell, input kind); non-trivial when the forward returned '
-        'and the input is not all-zero')
+        'and the input is not all-zero'
+        '; user-defined banks excluded (no perfect-reconstruction pair); the same round trip through a float32-built .double() pair and a float64-built .float() pair at float32 tap precision; wave argument forms and autograd contexts as in C01')
 ASSUMPTIONS = ['float64', 'pywt own round-trip error bounds the error allowed for approximately-PR wavelets',
                'sizes bounded as in C01']
 TIMEOUT = {'quick': 900, 'thorough': 3000}
